@@ -27,3 +27,72 @@ package reclaim
 //@   ensures [onlyEligibleVictims] forall j *podgroup_info.PodGroupInfo :: utils.pushed(j) && !old(utils.pushed(j)) ==> reclaimVictim(ssn, reclaimer, j)
 //@   ensures [onlySessionJobs] forall j *podgroup_info.PodGroupInfo :: utils.pushed(j) && !old(utils.pushed(j)) ==> utils.memberOf(ssn.ClusterInfo.PodGroupInfos, j)
 //@ end
+
+// ---- exec2: the per-reclaimer attempt and the Execute loop (C07 / C05 / C06 / C03 / C10) ------------------
+//@ import solvers "github.com/NVIDIA/KAI-scheduler/pkg/scheduler/actions/common/solvers"
+
+// C07: "Reclaim never reduces the allocation of a queue ... that is within its deserved quota in every resource:
+// resources are taken only from queues above their deserved quota or above their fair share" - "must hold for the
+// victims finally committed". The reclaim scenario validator (ssn.ReclaimScenarioValidatorFn -> proportion's
+// reclaimable strategies) does not read the live queue usage but the copy that the job-solution-start hooks
+// take (proportion.OnJobSolutionStartFn: jobSimulationQueues := clone of the live queues, under contract in
+// plugins/proportion). The copy must therefore be taken for EVERY reclaimer, after the previous reclaimer's
+// commit: the solver run of a reclaimer starts from a FRESH snapshot - precondition [validationSnapshotFresh] of
+// solvers.(*JobSolver).Solve for the reclaim action (framework.snapshotFresh: the hooks ran after the last
+// decision was emitted to the cache), proved HERE at the call `solver.Solve(ssn, reclaimer)`. Nothing can be
+// assumed about the snapshot at entry: the previous iteration of Execute may have committed.
+// C03: a reclaimer is reported as served only if its gang is satisfied in the state the returned statement describes.
+//@ func (*reclaimAction).attemptToReclaimForSpecificJob
+//@   props C07 C05 C06 C03 C10
+//@   usestable Session.ClusterInfo ClusterInfo.Queues map[common_info.QueueID]*queue_info.QueueInfo PodGroupInfo.Queue
+//@   requires ssn != nil && ssn.ClusterInfo != nil && reclaimer != nil
+//@   requires [queueKnown] ssn.ClusterInfo.Queues[reclaimer.Queue] != nil
+//@   modifies *
+//@   ensures [successMeansGangSatisfied] result0 ==> solvers.gangSat(reclaimer)
+//@   trust [successIsCommittable] result0 ==> result1 != nil && framework.commitReady(result1) && framework.wfLog(result1) && framework.flatLog(result1)
+//@   note trust [successIsCommittable]: not derivable from the contract of (*JobSolver).Solve (its result0 is computed from the job's counters after whole-heap havocs; "solved ==> the returned statement is the open, well-formed, flat log of the last prefix" needs the unmechanised exact-restoration argument of C13)
+//@   trust [outcomeRecorded] common.failedAttempt(reclaimer) == !result0
+//@   note trust [outcomeRecorded]: definition of the ghost mark (a ghost can only be written by an assumed clause); it carries "this job's attempt just failed" to the precondition [recordsOnlyFailedJobs] of UpdateRepresentative
+//@ end
+
+//@ import common_info "github.com/NVIDIA/KAI-scheduler/pkg/scheduler/api/common_info"
+//@ define sessionJobsOK(ssn *framework.Session) bool = (forall k in ssn.ClusterInfo.PodGroupInfos :: podgroup_info.allTasksOK(ssn.ClusterInfo.PodGroupInfos[k]) && podgroup_info.setsOK(ssn.ClusterInfo.PodGroupInfos[k])) && (forall q in ssn.ClusterInfo.Queues :: ssn.ClusterInfo.Queues[q] != nil)
+
+// C05: "a pending workload that keeps its queue within deserved quota obtains capacity by reclaiming from preemptible pods
+// of over-quota queues ... within one cycle" / "a wrong job-signature shortcut ... silently starves workloads". Reclaim
+// victims are jobs of OTHER queues than the reclaimer's (getOrderedVictimsQueue$1 [onlyEligibleVictims]) and the
+// strategies compare the reclaimer's queue with the victims' queues, so that a job failed says something only about
+// later jobs of the SAME queue: a popped job is skipped without an attempt only because
+//   - the can-reclaim gate rejects it (framework.(*Session).CanReclaimResources [firstDecides]; proportion's gate is decided
+//     under C07: within fair share <==> can reclaim), or
+//   - a table of failed jobs that holds jobs of ITS OWN queue only answers "not easier" - precondition [ownQueueScope] of
+//     common.(*MinimalJobRepresentatives).IsEasierToSchedule / UpdateRepresentative (no table of this action is declared
+//     cluster-wide), proved at both call sites from the loop invariants:
+//       [tablesExist] [storedJobsExist] every table registered under a queue is well-formed (no nil table, map or stored
+//                          job; the allocated(..) conjuncts are heap-closedness facts the stable-field reasoning needs),
+//       [perQueueScope]    and holds only jobs of that queue,
+//       [tablesSeparate]   tables of different queues share nothing (recording a failure in one leaves the others alone);
+//       [orderSession]     the job order belongs to this session (links PopNextJob [poppedQueueKnown] to the attempt's [queueKnown]).
+// Every other popped job is handed to attemptToReclaimForSpecificJob (which takes the validation snapshot, C07).
+// C06: "Every such eviction is committed together with the bind or nomination of the workload it was made for":
+// statement.Commit() is reached only with the statement a successful attempt returned (preconditions of Commit, proved at
+// the call site); after a failed attempt nothing is committed and only then is the job recorded ([recordsOnlyFailedJobs]).
+// C10: no panic on any path (a non-empty order yields a job; the statement is dereferenced only after success).
+// C05 "within one cycle": the action ends only when the job order is empty - every candidate job was popped and either
+// skipped for one of the two reasons above or attempted ([orderDrained]; a failed attempt does not stop the loop).
+//@ func (*reclaimAction).Execute
+//@   props C05 C06 C03 C10
+//@   usestable MinimalJobRepresentatives.representatives map[common_info.SchedulingConstraintsSignature]*podgroup_info.PodGroupInfo PodGroupInfo.Queue Session.ClusterInfo JobsOrderByQueues.ssn ClusterInfo.Queues map[common_info.QueueID]*queue_info.QueueInfo
+//@   requires ssn != nil && ssn.ClusterInfo != nil && ssn.Config != nil && sessionJobsOK(ssn)
+//@   requires [queueDepthNotZero] ssn.GetJobsDepth("reclaim") != 0
+//@   modifies *
+//@   loop 1
+//@     modifies *
+//@     invariant [orderSession] jobsOrderByQueues.ssn == ssn
+//@     invariant [tablesExist] forall q in smallestFailedJobsByQueue :: smallestFailedJobsByQueue[q] != nil && allocated(smallestFailedJobsByQueue[q]) && smallestFailedJobsByQueue[q].representatives != nil && allocated(smallestFailedJobsByQueue[q].representatives)
+//@     invariant [tablesSeparate] forall q1 in smallestFailedJobsByQueue :: forall q2 in smallestFailedJobsByQueue :: q1 != q2 ==> smallestFailedJobsByQueue[q1].representatives != smallestFailedJobsByQueue[q2].representatives
+//@     invariant [storedJobsExist] forall q in smallestFailedJobsByQueue :: forall k in smallestFailedJobsByQueue[q].representatives :: smallestFailedJobsByQueue[q].representatives[k] != nil && allocated(smallestFailedJobsByQueue[q].representatives[k])
+//@     invariant [perQueueScope] forall q in smallestFailedJobsByQueue :: forall k in smallestFailedJobsByQueue[q].representatives :: smallestFailedJobsByQueue[q].representatives[k].Queue == q
+//@   ensures [orderDrained] utils.orderEmpty(jobsOrderByQueues)
+//@ end
+// ---- end exec2 ----
